@@ -7,6 +7,7 @@ import (
 	"errors"
 	"fmt"
 	"os"
+	"path/filepath"
 	"strconv"
 	"strings"
 	"time"
@@ -26,8 +27,23 @@ func WriteE(file string, e export.Export) (err error) {
 	return
 }
 
+// Write replaces file atomically: the content is written to a temporary file in the same
+// directory which is then renamed, so that a reader never sees a partially written entry.
 func Write(file string, content []byte) (err error) {
-	return os.WriteFile(file, content, 0600)
+	tmp, err := os.CreateTemp(filepath.Dir(file), filepath.Base(file)+".tmp*")
+	if err != nil {
+		return err
+	}
+	defer os.Remove(tmp.Name()) // no-op once renamed
+
+	if _, err = tmp.Write(content); err != nil {
+		tmp.Close()
+		return err
+	}
+	if err = tmp.Close(); err != nil {
+		return err
+	}
+	return os.Rename(tmp.Name(), file)
 }
 
 func LoadE(file string, timeout time.Duration) (*export.Export, error) { // TODO reference
